@@ -124,11 +124,11 @@ fn retire_job(pipe: Pipe, form: Form, horizon: u64, per: u64, blame: String) -> 
       Some((at, pulls0, taps0, _polls0)) => {
         let pulls = Counters::get(&r.cx.ctr.pulls);
         let taps = Counters::get(&r.cx.ctr.taps);
-        if pulls > pulls0 + 1 {
+        if pulls > pulls0 {
           obs.fail(
             format!("c16:keeps-pulling:{blame}"),
             format!(
-              "{} [{}]: the subscriber had its terminal after {pulls0} pulls, the producer pulled {} more",
+              "{} [{}]: the subscriber had its terminal after {pulls0} pulls of the iterator / stream, {} more were made",
               pipe.show(),
               hist.join(" "),
               pulls - pulls0
@@ -229,6 +229,23 @@ pub fn plan(tier: Tier) -> Plan {
       // producer as the second / notifier input of every two-input operator,
       // main input hot, output cut; and as the main input with a hot second
       for op2 in Op2::ALL {
+        // a producer none of whose items gets through, stream ended by a timer
+        let silent = head.clone().o1(Op1::IgnoreElements);
+        for p in [
+          Pipe::hot(0).o2(op2, silent.clone()).o1(Op1::TakeUntilTimer(2)),
+          silent.clone().o2(op2, Pipe::hot(0)).o1(Op1::TakeUntilTimer(2)),
+          Pipe::hot(0).o2(op2, head.clone()).o1(Op1::TakeUntilTimer(2)),
+        ] {
+          n_pipes += 1;
+          jobs.push(retire_job(p, form, 5, per + 2, format!("{}:input-of:{}:cut-by-timer", pname(&prod), op2.name())));
+        }
+        // the producer is subscribed for a subscriber that has already finished
+        // (a cold first input satisfied the cutter during its own subscription)
+        for cold in [Src::Of(7), Src::Iter(vec![7, 8])] {
+          n_pipes += 1;
+          let p = Pipe::S(cold).o2(op2, head.clone()).o1(Op1::Take(1));
+          jobs.push(retire_job(p, form, 5, per + 2, format!("{}:subscribed-when-finished:{}", pname(&prod), op2.name())));
+        }
         for cut in [Op1::Take(1), Op1::First, Op1::Contains(1), Op1::TakeWhile(P::Lt1)] {
           let second = Pipe::hot(0).o2(op2, head.clone()).o1(cut.clone());
           n_pipes += 1;
@@ -269,7 +286,7 @@ pub fn plan(tier: Tier) -> Plan {
       prop: "C16".into(),
       tier: tier_name(tier),
       engine: "E1 opseq".into(),
-      rule: "producer in {interval(1|2), interval_at, from_iter over a pull-counting iterator, from_stream over a poll-counting stream, timer, the tickers of buffer_with_time / buffer_with_count_and_time / sample(interval)} x every sequence up to the depth bound of intermediate catalogue stages x cutter in {take(1), first, element_at(0|1), take_while(_inclusive), contains, all, first_or, take_until(timer)}, and the producer as first and as second / notifier input of every two-input operator whose output is cut (hot other input, every emit/silent pattern per tick); local and _threads forms; prompt FIFO executor on the virtual clock. After the probe's terminal: at most one more pull / emission of the producer, and within one period + 2 ticks no ready task and no live timer is left; non-trivial = something was delivered".into(),
+      rule: "producer in {interval(1|2), interval_at, from_iter over a pull-counting iterator, from_stream over a poll-counting stream, timer, the tickers of buffer_with_time / buffer_with_count_and_time / sample(interval)} x every sequence up to the depth bound of intermediate catalogue stages x cutter in {take(1), first, element_at(0|1), take_while(_inclusive), contains, all, first_or, take_until(timer)}, and the producer as first and as second / notifier input of every two-input operator whose output is cut (hot other input, every emit/silent pattern per tick); local and _threads forms; prompt FIFO executor on the virtual clock. After the probe's terminal: no further pull of an iterator / stream, at most one more emission of a ticker, and within one period + 2 ticks no ready task and no live timer is left; non-trivial = something was delivered".into(),
       bounds: json!({"stage_depth": depth, "pipelines": n_pipes, "iterator_items": N_ITEMS}),
       assumptions: vec![
         "pipelines whose cutter never fires within the horizon are counted as skipped_unspecified".into(),
